@@ -46,9 +46,12 @@ class C12(Prop):
         if spec_field(spec, "enc") == "0":
             return "the generator's canonical writer and the reference writer (Spec.encodeTree) disagree"
         if spec_field(spec, "hyp") == "1":
-            s = spec_field(spec, "spec")
+            m = re.search(r"(?:^| )spec=(.*)$", spec)          # last field, may contain blanks
+            s = m.group(1) if m else None
             if s is not None and s != "-":
                 got = strip_refs(impl)
+                if sub == "version":
+                    got = got.split(" vi=")[0]
                 if got != s:
                     return "%s reports %s, the stored tree says %s" % (sub, got[:400], s[:400])
         return None
